@@ -161,12 +161,12 @@ def run(ctx):
                 "application data relation holds.")
     ctx.assumptions = []
     import session_corr
-    import export_props_thms, file_corr     # whole-program form (Props/ExportProps) about TLX.Export.framesFrom, tied file to file
+    import export_props_quic_thms, export_props_thms, file_corr     # whole-program form (Props/ExportProps) about TLX.Export.framesFrom, tied file to file
     import translate                 # decision-logic functions re-translated from the source and proved equal to the model
     _tm, _tt = translate.wire(ctx, "C13")
-    ctx.prove(["TLX.Props.C13", "TLX.Props.C13Session", "TLX.Props.C02Out", "TLX.Props.C01Pipeline"] + export_props_thms.MODULES + _tm)
+    ctx.prove(["TLX.Props.C13", "TLX.Props.C13Session", "TLX.Props.C02Out", "TLX.Props.C01Pipeline"] + export_props_thms.MODULES + export_props_quic_thms.MODULES + _tm)
     ctx.require_theorems(_tt)
-    ctx.require_theorems(THEOREMS + session_corr.THEOREMS_C13 + export_props_thms.THEOREMS_C13 + ["TLX.Props.C02Out." + t for t in ("meta_only_adds_quic", "meta_only_adds_quic_sublist", "meta_regroup", "out_bytes_from_frames")] + ["TLX.Props.C01Pipeline.connOut_meta_only_adds",
+    ctx.require_theorems(THEOREMS + session_corr.THEOREMS_C13 + export_props_thms.THEOREMS_C13 + export_props_quic_thms.THEOREMS_C13 + ["TLX.Props.C02Out." + t for t in ("meta_only_adds_quic", "meta_only_adds_quic_sublist", "meta_regroup", "out_bytes_from_frames")] + ["TLX.Props.C01Pipeline.connOut_meta_only_adds",
                           "TLX.Props.C01Pipeline.handshake13_exports_nothing"])
     import c06_model
     c06_model.run_model(ctx)          # ties TLX.TcpOut to the real OutputBuilder
